@@ -483,3 +483,13 @@ def run(ctx):
     ctx.check(j7, len(semi) == 1 and semi[0]["begin"] == "INITIAL", "scanner:semicolon", "src/jsgf_scanner.l", "`;` does not end the declaration mode")
     starters = [r for r in rules if r["sc"] == "INITIAL" and r["begin"] == "DECL"]
     ctx.check(j7, len(starters) == 5, "scanner:starters", "src/jsgf_scanner.l", "expected 5 rules entering declaration mode (header, grammar, import, public, rule name), found %d" % len(starters))
+
+    # the link -> word transition step gives a token its word id by text: tokens that differ in letter case are
+    # different words of the language (seed C05-11 looked them up in a case-folding table)
+    from . import c13
+    j8 = ctx.rule("TABLE.J8-word-ids", "word ids are given to tokens by exact text: every table of the grammar code keyed by word text is created case-sensitive, and fsg_model_word_id compares with strcmp", floor=1)
+    c13.case_tables(ctx, ctx.P, j8)
+    wi = ctx.P.fn("fsg_model_word_id", "fsg_model.c")
+    ctx.touch(wi)
+    cmpc = [wi.nodes[c].get("callee") for c in wi.find("Call") if wi.nodes[c].get("callee") in ("strcmp", "strcasecmp", "strncmp", "strncasecmp", "strcmp_nocase", "hash_table_lookup", "hash_table_lookup_int32")]
+    ctx.check(j8, cmpc and all(c in ("strcmp", "hash_table_lookup", "hash_table_lookup_int32") for c in cmpc), "fsg_model_word_id:exact", wi.where(wi.root), "fsg_model_word_id compares labels with %s" % cmpc)
